@@ -10,24 +10,29 @@ PROPS = "Props/C19.v"
 IMPORTS = "From PV Require Import Lib.Common Model.C19_Pareto."
 SHARD = 40
 LEVEL_TEXT = ("Coq theorems over an exact-rational executable model: the pivot filter of is_pareto_efficient (with its index "
-              "bookkeeping, termination within npt iterations) marks only non-dominated points and every unmarked point is weakly "
-              "dominated by a marked one, for every finite rectangular point set and every weight vector; mask = flatnonzero-inverse of "
-              "the index form; the set of efficient vectors is characterised order-free (hence permutation invariant) and mask/indices "
-              "are invariant under positive rescaling of the weights; dominates is a strict partial order that is Pareto dominance on "
-              "feasible pairs and violation order otherwise; the distance transforms return the squared norm of the orthogonal residual "
-              "(= minimum squared distance to the line), are invariant to translation of the front and finite when an objective is "
-              "constant (all three copies after commit 47ce3c75; refuted for the unguarded variant). The model is tied to the code by "
-              "evaluating it inside Coq against the implementation's outputs on generated inputs")
-LEVEL_NOTE = ("trusted: Coq kernel + vm_compute; numpy float comparisons/products are exact on the dyadic input grid; the final "
-              "numpy.linalg.norm and the min-max division are compared in regime T (squared distance within 2^-30 of the exact rational); "
-              "float overflow and NaN inputs are outside the model; the theorems are about the Gallina model, the tie to the code is "
-              "differential on generated inputs")
+              "bookkeeping; termination within npt iterations) marks only non-dominated points and every unmarked point is equalled or "
+              "dominated by a marked one, for every finite rectangular point set and every weight vector; the index form is flatnonzero "
+              "of the mask; the set of efficient vectors is characterised order-free (hence permutation invariant) and mask/indices "
+              "are invariant under positive rescaling of the objectives; dominates is a strict partial order that is Pareto dominance on "
+              "feasible pairs and violation order otherwise (feasible beats infeasible); the distance transforms return the squared norm "
+              "of the orthogonal residual of the min-max-scaled point (= minimum squared distance to the line; entrywise (x-min)/(max-min), "
+              "0 for a constant objective, entries in [0,1]), are invariant to translation of the front and finite when an objective is "
+              "constant (all three copies after commit 47ce3c75; refuted for the unguarded variant); the two selection copies are proved "
+              "to be the core function with their two vector arguments exchanged (documented roles refuted: known finding "
+              "C19-trans-roles-swapped). The model is tied to the code by evaluating it inside Coq against the implementation's outputs "
+              "on generated inputs")
+LEVEL_NOTE = ("trusted: Coq kernel + vm_compute; numpy float comparisons/products/differences are exact on the dyadic input grid; the "
+              "1/range scaling, the dot products and numpy.linalg.norm are compared in regime T (squared distance within 2^-30(1+|y|) of "
+              "the exact rational); float overflow, NaN inputs, ragged/mis-shaped inputs are outside the model; the theorems are about "
+              "the Gallina model, the tie to the code is differential on generated inputs")
 TECHNIQUE = "Coq proof over an exact-rational executable model; in-Coq vm_compute correspondence with the implementation"
 RULE = ("case = (function, arguments): pareto (fmat, wt, a permutation, a positive column rescale), dom (three (obj, cv) solutions: all 9 "
         "ordered pairs), dist (one of the three transformation functions, mat, sign vector, preference vector, a translation); generated "
         "from one PRNG over styles small-integer grid (ties/duplicates), k/64 grid, collinear front, chain, duplicated points, single "
         "point, constant objective; npt 0..14 (thorough ..40), nobj 1..4; weights of both signs and zero; preference vectors on the grid "
-        "{0,1/4,..,3}^nobj. non-trivial = at least two points that are not all equal (dom: the solutions differ); distinct by SHA-256")
+        "{0,1/4,..,3}^nobj (all of {0,1/2,1,2}^2 on a fixed front), plus inputs outside the quantified domain (zero/negative "
+        "preference, zero sign vector: AssertionError / NaN compared coarsely). non-trivial = at least two points that are not all "
+        "equal (dom: the three solutions are not all identical); distinct by SHA-256 of the case")
 TRUSTED = ["float products/differences/comparisons of dyadic inputs (k/64, |x| <= 8, weights m/4) are exact",
            "numpy.linalg.norm, 1.0/range and the dot products are compared in tolerance regime T on the squared distance"]
 ASSUMPTIONS = ["rectangular fmat/mat with len(wt) = nobj >= 1, finite non-NaN entries, no float overflow",
@@ -137,7 +142,7 @@ def gen_cases(rng, tier):
                 for sign in ([1.0, 1.0], [1.0, -1.0]):
                     cases.append({"kind": "dist", "fn": fn, "style": "grid", "nobj": 2, "mat": front, "sign": sign,
                                   "pref": [a, b], "shift": [0.25, -3.0]})
-    nP, nD, nT, nX = (170, 90, 240, 24) if quick else (2500, 1200, 3600, 200)
+    nP, nD, nT, nX = (500, 240, 720, 45) if quick else (3000, 1500, 4500, 240)
     for _ in range(nP):
         nobj = rng.choice([1, 2, 2, 2, 3, 3, 4])
         npt = rng.randint(2, 14) if quick or rng.random() < 0.6 else rng.randint(15, 40)
@@ -344,22 +349,24 @@ def _pred_dist(case, out):
         const = [k for k in range(case["nobj"]) if len(set(r[k] for r in case["mat"])) == 1]
         return ["non-finite distance (constant objectives: %s)" % const]
     mat = _fr(case["mat"]); sign = [Fraction(x) for x in case["sign"]]; pref = [Fraction(x) for x in case["pref"]]
-    if case["fn"] == "core":
-        want = _geo2(mat, sign, pref)
-    else:
-        want = _geo2(mat, pref, sign)          # what the selection copies compute: columns times vec_wt, line = obj_wt
-    for i in range(n):
-        if not _close2(d[i], want[i]):
-            bad.append("distance of point %d is %r, geometric definition gives sqrt(%s)" % (i, d[i], want[i])); break
+    # the property: objectives signed by the sign vector, min-max scaled, distance to the line spanned by the preference vector
+    want = _geo2(mat, sign, pref)
+    miss = [i for i in range(n) if not _close2(d[i], want[i])]
+    if miss and case["fn"] != "core":
+        # known finding C19-trans-roles-swapped: the selection copies scale the columns by vec_wt and measure the distance
+        # to obj_wt.  Accept exactly that deviation under the finding's clause; anything else is a new violation.
+        coded = _geo2(mat, pref, sign)
+        if all(_close2(d[i], coded[i]) for i in range(n)):
+            i = miss[0]
+            bad.append("DOCROLES: distance of point %d is %r; the documented definition (objectives signed by obj_wt, distance "
+                       "to the vector vec_wt) gives sqrt(%s) = %r" % (i, d[i], want[i], math.sqrt(want[i])))
+            want, miss = coded, []
+    if miss:
+        i = miss[0]
+        bad.append("distance of point %d is %r, geometric definition gives sqrt(%s) = %r" % (i, d[i], want[i], math.sqrt(want[i])))
     for i in range(n):
         if not _close2(ds[i], want[i]):
             bad.append("distance of point %d changes under translation by %s: %r vs %r" % (i, case["shift"], ds[i], d[i])); break
-    if case["fn"] != "core":
-        doc = _geo2(mat, sign, pref)           # documented roles: obj_wt = signs, vec_wt = the preference vector
-        for i in range(n):
-            if not _close2(d[i], doc[i]):
-                bad.append("DOCROLES: distance of point %d is %r; the documented definition (objectives signed by obj_wt, distance "
-                           "to the vector vec_wt) gives sqrt(%s) = %r" % (i, d[i], doc[i], math.sqrt(doc[i]))); break
     if not out["unchanged"]: bad.append("input arrays were modified")
     return bad
 
